@@ -97,6 +97,15 @@ func storeEnabled(m *smodel) []sop {
 	if last+1 > m.snapIdx {
 		out = append(out, sop{kind: "install", a: last + 1, t: max(lastTerm, 1)}, sop{kind: "install", a: last + 2, t: min(lastTerm+1, 3)})
 	}
+	// a snapshot inside the stored log (same or different term at that index): ApplySnapshot
+	// replaces the whole log, entries behind the snapshot index included
+	for i := m.snapIdx + 1; i <= last; i++ {
+		t, _ := m.l.term(i)
+		out = append(out, sop{kind: "install", a: i, t: t})
+		if t < 3 {
+			out = append(out, sop{kind: "install", a: i, t: t + 1})
+		}
+	}
 	return out
 }
 
